@@ -34,7 +34,10 @@ type c15run struct {
 	c      *fw.Ctx
 	target int
 	block  uint64
+	seq    int
 }
+
+var c15reused *wmpt.WeightedMerkleTrie // the long-lived decoder object of this worker process
 
 // feed hands one input to the target. A panic (recovered here) is a violation; a fatal error or a stall kills the
 // worker and is reported by the driver together with the input written to disk just before the call.
@@ -43,6 +46,7 @@ func (r *c15run) feed(mut string, in []byte) {
 	if len(in) > 64<<10 {
 		in = in[:64<<10]
 	}
+	r.seq++
 	c.Count("inputs", 1)
 	c.Count("inputs:"+c15targets[r.target], 1)
 	c.Count("mutator:"+mut, 1)
@@ -90,8 +94,25 @@ func (r *c15run) feed(mut string, in []byte) {
 		_ = n.Copy()
 		_ = n.CopyRoot(0, 2)
 	case tDeserializeTrie:
+		// every other input goes to one long-lived trie object per worker (a decoder that is left locked or half-updated by
+		// a rejected input hangs or misbehaves on the next one; the stall monitor reports a call that does not return)
 		t := wmpt.New(nil, nil)
+		returned := false
+		if r.seq%2 == 1 {
+			if c15reused == nil {
+				c15reused = wmpt.New(nil, nil)
+			}
+			t = c15reused
+			c15reused = nil // put back once the calls below have returned (after a panic the next input gets a fresh one)
+			defer func() {
+				if returned {
+					c15reused = t
+				}
+			}()
+			c.Count("inputs_to_a_reused_trie_object", 1)
+		}
 		if err := t.Deserialize(in); err != nil {
+			returned = true
 			c.Count("rejected", 1)
 			return
 		}
@@ -99,6 +120,7 @@ func (r *c15run) feed(mut string, in []byte) {
 		_ = t.Root()
 		_ = t.Weight()
 		_, _ = t.GetPath(nil)
+		returned = true
 	case tDeadNodes:
 		// the bytes are planted as the dead-node record of version 1 and decoded by the pruner (its iterator runs in a
 		// goroutine of its own: a panic there kills the worker and is reported by the driver with this input)
@@ -491,7 +513,7 @@ func init() {
 		ID:           "C15",
 		EvalCounters: []string{"inputs"},
 		Level:        "exploration",
-		Rule: "each case harvests real encodings at run time (state-trie nodes of a generated trie incl. a value node; weighted-trie nodes from a committed store, hash and nil nodes; GetPath exports for 0/1/3/12 keys; block proofs) and feeds one of five decoding entry points (case index mod 5; the fifth plants the bytes as a persisted dead-node record and runs the pruner over it) with derived inputs: " +
+		Rule: "(Every other path-export input is decoded by one long-lived trie object per worker, so that a decoder left locked or half-updated by a rejected input shows on the next one.) each case harvests real encodings at run time (state-trie nodes of a generated trie incl. a value node; weighted-trie nodes from a committed store, hash and nil nodes; GetPath exports for 0/1/3/12 keys; block proofs) and feeds one of five decoding entry points (case index mod 5; the fifth plants the bytes as a persisted dead-node record and runs the pruner over it) with derived inputs: " +
 			"every truncation length (exhaustive for bases <= 512 bytes), every value 0..255 of the first byte, removal of each ':' separator, bit flips, byte inserts/deletes, CBOR head inflation to 1/2/4/8-byte lengths, field splicing between encodings, every type byte x crafted bodies (one separator, 15/16/17 separators, child hex of length 63/65/66, non-hex), " +
 			"branch child hex strings of every length 0..140, CBOR child/value/hash blobs of every length 0..80, branch arrays of 0..20 children, nil / empty / dropped / duplicated / foreign elements in exports and proofs, hand-crafted CBOR (nil in place of structs, wrong arities, indefinite lengths), random bytes. " +
 			"The input is written to disk before each call; a recovered panic, a fatal exit or a call that does not return for 60 s is a violation; accepted inputs are re-encoded (Encode/GetHashBytes/CloneNode; Serialize/Copy; Root/GetPath). distinct non-trivial = distinct (decoder, input bytes) pairs; inputs are also counted per mutator",
@@ -503,7 +525,7 @@ func init() {
 		},
 		Run:          runC15,
 		StallSeconds: 60,
-		Floors: map[string]int64{"inputs": 1000000, "accepted": 20000, "rejected": 500000, "inputs:util.CreateNode": 100000, "inputs:wmpt.DeserializeNode": 100000, "inputs:WeightedMerkleTrie.Deserialize": 100000, "inputs:WeightedMerkleTrie.VerifyBlockProof": 100000, "inputs:PNodeDB.PruneBelowVersion(dead-node record)": 30000,
+		Floors: map[string]int64{"inputs_to_a_reused_trie_object": 100000, "inputs": 1000000, "accepted": 20000, "rejected": 500000, "inputs:util.CreateNode": 100000, "inputs:wmpt.DeserializeNode": 100000, "inputs:WeightedMerkleTrie.Deserialize": 100000, "inputs:WeightedMerkleTrie.VerifyBlockProof": 100000, "inputs:PNodeDB.PruneBelowVersion(dead-node record)": 30000,
 			"mutator:truncation": 50000, "mutator:separator removed": 5000, "mutator:first byte 0..255": 100000, "mutator:cbor head inflated": 10000, "mutator:branch child blob of length 0..80": 1000, "mutator:branch array of 0..20 children": 1000, "mutator:nil element": 1000, "mutator:dead-node record with a key of length 0..140": 5000},
 		Assumptions: []string{"inputs are near-valid derivations of real encodings plus random strings, at most 64 KiB; not all byte strings"},
 	})
